@@ -4,6 +4,7 @@ import (
 	"fmt"
 	"go/ast"
 	"go/token"
+	"go/types"
 	"strings"
 
 	"golang.org/x/tools/go/packages"
@@ -48,6 +49,9 @@ func init() {
 	mutant(&Mutant{Name: "c09-bigint-through-number", Property: "C09", File: "js/util.go",
 		Old: "\tb, suffix = removeUnderscoresAndSuffix(b)\n\tif suffix {\n\t\treturn append(b, 'n')\n\t}\n\treturn minify.Number(b, prec)", New: "\tb, suffix = removeUnderscoresAndSuffix(b)\n\tb = minify.Number(b, prec)\n\tif suffix {\n\t\treturn append(b, 'n')\n\t}\n\treturn b",
 		Rule: "R09.3", Construct: "decimalNumber"})
+	mutant(&Mutant{Name: "c04-custom-property-collapsed", Property: "C04", File: "css/css.go",
+		Old: "\t\t\tvalue := parse.TrimWhitespace(c.p.Values()[0].Data)\n", New: "\t\t\tvalue := parse.TrimWhitespace(parse.ReplaceMultipleWhitespace(c.p.Values()[0].Data))\n",
+		Rule: "R04.4", Construct: "confined to comment text"})
 	mutant(&Mutant{Name: "c09-dot-after-number-shortcut", Property: "C09", File: "js/js.go",
 		Old: "\t\tif js.OpMember <= prec || isOptionalGroup(expr.X) {\n\t\t\tm.minifyExpr(expr.X, js.OpMember)", New: "\t\tif lit, ok := expr.X.(*js.LiteralExpr); ok && lit.TokenType == js.DecimalToken {\n\t\t\tm.write(lit.Data)\n\t\t\tm.write(dotBytes)\n\t\t\tm.write(expr.Y.Data)\n\t\t\tbreak\n\t\t}\n\t\tif js.OpMember <= prec || isOptionalGroup(expr.X) {\n\t\t\tm.minifyExpr(expr.X, js.OpMember)",
 		Rule: "R09.4", Construct: "property write"})
@@ -94,6 +98,39 @@ func rangeWritesEach(g *flow.Graph, rn *flow.Node) bool {
 }
 
 func runC04(c *Ctx) {
+	runC04own(c)
+	// R04.4
+	const r4 = "R04.4"
+	c.R.Rule(r4, "strings, URLs and custom-property values must reach the output byte for byte. In package css every call of a parse/v2 helper that rewrites white space *inside* a byte string (a function returning []byte whose name contains `MultipleWhitespace`) lies in the CommentGrammar case of cssMinifier.minifyGrammar (the text of a `/*! … */` comment); everything else the minifier handles is token data — a raw value collapsed as a whole changes the strings in it (`--sep:\"a  b\"` → `\"a b\"`)")
+	pk := c.P.Pkg("css")
+	if pk == nil {
+		return
+	}
+	info := pk.TypesInfo
+	n := 0
+	for _, fd := range load.FuncDecls(pk) {
+		if fd.Body == nil {
+			continue
+		}
+		ast.Inspect(fd.Body, func(x ast.Node) bool {
+			call, ok := x.(*ast.CallExpr)
+			if !ok {
+				return true
+			}
+			fo, _ := callee(info, call).(*types.Func)
+			if fo == nil || fo.Pkg() == nil || fo.Pkg().Path() != load.ParseMod || !strings.Contains(fo.Name(), "MultipleWhitespace") {
+				return true
+			}
+			n++
+			lab := c.caseLabel(call)
+			c.R.Check(load.FuncName(fd) == "cssMinifier.minifyGrammar" && lab == "case css.CommentGrammar", r4, fmt.Sprintf("css.%s/%s#%d confined to comment text", load.FuncName(fd), fo.Name(), n), c.pos(call), "in the CommentGrammar case", "parse."+fo.Name()+" is applied to "+str(call.Args[0])+" in "+load.FuncName(fd)+" ("+lab+"): white space inside strings and URLs of that data is collapsed too")
+			return true
+		})
+	}
+	c.R.Floor(r4, "white-space collapsing calls", n, 1)
+}
+
+func runC04own(c *Ctx) {
 	const r1, r2 = "R04.1", "R04.2"
 	c.R.Rule(r1, "in cssMinifier.minifyDeclaration, from the assignment `important = true` (after the two trailing components were stripped) every path to the function exit writes importantBytes or calls writeDeclaration(values, important) with that flag, under the stipulation that the flag stays true (it is not reassigned); in writeDeclaration, with the important parameter true, every path to the exit writes importantBytes")
 	c.R.Rule(r2, "cssMinifier.minifyGrammar: the grammar switch has a default clause whose first statement writes the token data unconditionally; in the parse-error branch a range over the remaining values writes every value's Data; in minifyDeclaration, when parseDeclaration declines (values == nil), a range over components writes every component's Data before returning")
